@@ -1,0 +1,28 @@
+//go:build verif
+
+// Contracts for builtins that consume iterators (C05).  See /verif/DESIGN.md.
+
+package builtin
+
+//@ func builtin_all(self, seq) (r, err)
+//@   modifies *
+//@   ensures fail: nextFailed() ==> err == lasterr[0]
+//@   ensures stop: nextStopped() ==> err == nil
+
+//@ func builtin_any(self, seq) (r, err)
+//@   modifies *
+//@   ensures fail: nextFailed() ==> err == lasterr[0]
+//@   ensures stop: nextStopped() ==> err == nil
+
+//@ func builtin_next(self, args) (res, err)
+//@   modifies *
+//@   ensures fail: nextFailed() ==> err == lasterr[0]
+
+//@ func builtin_sum(self, args) (r, err)
+//@   modifies *
+//@   ensures fail: nextFailed() ==> err == lasterr[0]
+//@   ensures stop: nextStopped() ==> err == nil
+
+//@ func min_max(args, kwargs, name) (r, err)
+//@   modifies *
+//@   ensures fail: nextFailed() ==> err == lasterr[0]
